@@ -91,6 +91,14 @@ def check_case(out: Outcome, case, tag):
     if set(G.nodes) != want_nodes:
         out.fail('property', 'graph-nodes', case, expected=sorted(want_nodes)[:6], observed=sorted(G.nodes)[:6])
         return
+    # every edge carries weight = mean of its two voxel energies and weight_exp = exp(weight) capped at the threshold (independent of the path search)
+    for u, v, dat in G.edges(data=True):
+        w = 0.5 * (E[u] + E[v])
+        we = math.exp(w) if math.exp(w) < thr else thr
+        if not (math.isclose(dat['weight'], w, rel_tol=1e-12, abs_tol=1e-300) and math.isclose(dat['weight_exp'], we, rel_tol=1e-12)):
+            out.fail('property', 'exp-weight', {**case, 'edge': [list(map(int, u)), list(map(int, v))]}, expected=[w, we], observed=[dat['weight'], dat['weight_exp']],
+                     note='edge attributes of free_energy_graph')
+            break
     reachable = opt['sum'] != 'none'
     # the other neighbourhood mode requested on the SAME volume object afterwards must give that mode's graph
     G_other = fev.free_energy_graph(max_energy_threshold=thr, diagonal=not diag)
@@ -210,6 +218,28 @@ def check_percolation_pocket(out: Outcome, rng):
     check_perc_case(out, case, 'percolation-pocket')
 
 
+def check_percolation_zero_channel(out: Outcome, rng):
+    """a straight channel of voxels with free energy exactly 0 (energies given relative to their minimum) percolates at total cost 0;
+    its peak is listed before peaks of costlier channels: the zero-cost path must be kept"""
+    shape = [4, 3, 4]
+    E = rng.integers(1, 33, size=shape) / 8.0
+    E[rng.random(shape) < 0.05] = BIGF
+    ax = int(rng.integers(3))
+    fixed = [int(rng.integers(0, n)) for n in shape]
+    sl = [fixed[0], fixed[1], fixed[2]]
+    sl[ax] = slice(None)
+    E[tuple(sl)] = 0.0
+    p0 = list(fixed)
+    p0[ax] = int(rng.integers(0, shape[ax]))
+    vis = np.array([v for v in np.argwhere(E < 1e7) if E[tuple(v)] > 0])
+    if len(vis) < 2:
+        return
+    others = vis[rng.choice(len(vis), size=2, replace=False)]
+    peaks = np.vstack([[p0], others])
+    case = {'percolation': True, 'shape': shape, 'E': E.reshape(-1).tolist(), 'dirs': 'xyz'[ax], 'peaks': peaks.tolist(), 'zero_channel_axis': ax}
+    check_perc_case(out, case, 'percolation-zero-channel')
+
+
 def check_perc_case(out: Outcome, case, tag):
     shape = tuple(case['shape'])
     E = np.array(case['E'], float).reshape(shape)
@@ -307,6 +337,8 @@ def run(tier: str, seed: int, scale: int) -> Outcome:
         check_percolation(out, rng, (4, 3, 5) if tier == 'quick' else (5, 5, 5))
     for _ in range((30 if tier == 'quick' else 300) * scale):
         check_percolation_pocket(out, rng)
+    for _ in range((20 if tier == 'quick' else 200) * scale):
+        check_percolation_zero_channel(out, rng)
     return out
 
 
